@@ -275,7 +275,7 @@ func genPowermapFuns(repo string) (string, error) {
 	}
 	var sb strings.Builder
 	sb.WriteString("(* GENERATED by harness/cmd/translate (PowermapFuns) from app/powermap.go - do not edit. *)\n")
-	sb.WriteString("From Coq Require Import List ZArith Bool.\nFrom Verif Require Import Lib.Bytes Lib.Assoc Lib.Sorting Model.Powermap Generated.AppConsts.\nImport ListNotations.\nOpen Scope Z_scope.\n\n")
+	sb.WriteString("From Coq Require Import List ZArith Bool.\nFrom Verif Require Import Lib.Bytes Lib.Assoc Lib.Sorting Model.Powermap Model.App Generated.AppConsts.\nImport ListNotations.\nOpen Scope Z_scope.\n\n")
 
 	// SortValidators: sort.Slice(validators, func(i, j int) bool { return bytes.Compare(K(i), K(j)) < 0 })
 	sv := findFunc(f, "SortValidators")
@@ -429,5 +429,78 @@ func genPowermapFuns(repo string) (string, error) {
 		}
 		fmt.Fprintf(&sb, "\n(* ShutterApp.%s; ids = app.Identities *)\nDefinition %s (ids : amap bytes) (%s : list bytes) : %s :=\n  %s%s.\n", spec.name, spec.coq, arg, spec.ty, init, b)
 	}
+
+	// ShutterApp.CurrentValidators: a search through app.Configs (from the end or from the start)
+	// for the first config satisfying a condition on its flags; its keypers make the power map
+	cv := findFunc(fa, "CurrentValidators")
+	if cv == nil || cv.Recv == nil || len(cv.Recv.List) != 1 || len(cv.Recv.List[0].Names) != 1 || len(cv.Body.List) != 2 {
+		return "", fmt.Errorf("CurrentValidators: unexpected shape")
+	}
+	recv := cv.Recv.List[0].Names[0].Name
+	cfgs := recv + ".Configs"
+	var elem string // Go text of the element inspected in the loop body
+	var loopBody []ast.Stmt
+	reverse := false
+	switch lp := cv.Body.List[0].(type) {
+	case *ast.ForStmt:
+		init, ok1 := lp.Init.(*ast.AssignStmt)
+		cond, ok2 := lp.Cond.(*ast.BinaryExpr)
+		post, ok3 := lp.Post.(*ast.IncDecStmt)
+		if !ok1 || !ok2 || !ok3 || len(init.Lhs) != 1 || len(init.Rhs) != 1 || init.Tok != token.DEFINE {
+			return "", fmt.Errorf("CurrentValidators: loop header not understood")
+		}
+		i := exprText(init.Lhs[0])
+		switch {
+		case exprText(init.Rhs[0]) == "*ast.BinaryExpr" && exprText(init.Rhs[0].(*ast.BinaryExpr).X) == "len("+cfgs+")" && init.Rhs[0].(*ast.BinaryExpr).Op == token.SUB && exprText(init.Rhs[0].(*ast.BinaryExpr).Y) == "1" &&
+			exprText(cond.X) == i && cond.Op == token.GEQ && exprText(cond.Y) == "0" && exprText(post.X) == i && post.Tok == token.DEC:
+			reverse = true
+		case exprText(init.Rhs[0]) == "0" && exprText(cond.X) == i && cond.Op == token.LSS && exprText(cond.Y) == "len("+cfgs+")" && exprText(post.X) == i && post.Tok == token.INC:
+			reverse = false
+		default:
+			return "", fmt.Errorf("CurrentValidators: loop header not understood")
+		}
+		elem = cfgs + "[" + i + "]"
+		loopBody = lp.Body.List
+	case *ast.RangeStmt:
+		if exprText(lp.X) != cfgs || lp.Tok != token.DEFINE {
+			return "", fmt.Errorf("CurrentValidators: range over something else than the configs")
+		}
+		if lp.Value != nil && exprText(lp.Value) != "_" {
+			elem = exprText(lp.Value)
+		} else if lp.Key != nil && exprText(lp.Key) != "_" {
+			elem = cfgs + "[" + exprText(lp.Key) + "]"
+		} else {
+			return "", fmt.Errorf("CurrentValidators: range without variables")
+		}
+		loopBody = lp.Body.List
+	default:
+		return "", fmt.Errorf("CurrentValidators: first statement is not a loop")
+	}
+	if len(loopBody) != 1 {
+		return "", fmt.Errorf("CurrentValidators: loop body not understood")
+	}
+	ifs, ok := loopBody[0].(*ast.IfStmt)
+	if !ok || ifs.Init != nil || ifs.Else != nil || len(ifs.Body.List) != 1 {
+		return "", fmt.Errorf("CurrentValidators: loop body not understood")
+	}
+	ret, ok := ifs.Body.List[0].(*ast.ReturnStmt)
+	if !ok || len(ret.Results) != 1 || exprText(ret.Results[0]) != recv+".makePowermap("+elem+".Keypers)" {
+		return "", fmt.Errorf("CurrentValidators: the loop does not return makePowermap of the inspected config's keypers")
+	}
+	last, ok := cv.Body.List[1].(*ast.ReturnStmt)
+	if !ok || len(last.Results) != 1 || exprText(last.Results[0]) != recv+".Validators" {
+		return "", fmt.Errorf("CurrentValidators: the fallback is not app.Validators")
+	}
+	tc := &tr{rename: map[string]string{elem + ".Started": "(c_started c)", elem + ".ValidatorsUpdated": "(c_valupd c)"}}
+	cond := tc.expr(ifs.Cond)
+	if tc.err != nil {
+		return "", fmt.Errorf("CurrentValidators: %v", tc.err)
+	}
+	order := "configs"
+	if reverse {
+		order = "(rev configs)"
+	}
+	fmt.Fprintf(&sb, "\n(* ShutterApp.CurrentValidators: the first config %s satisfying the test *)\nDefinition gen_current_validators (ids : amap bytes) (validators : powermap) (configs : list config) : powermap :=\n  match find (fun c => %s) %s with\n  | Some c => gen_make_powermap ids (c_keypers c)\n  | None => validators\n  end.\n",
+		map[bool]string{true: "from the end", false: "from the start"}[reverse], cond, order)
 	return sb.String(), nil
 }
